@@ -32,6 +32,9 @@ func init() {
 		if h := str(in, "v6"); h != "" {
 			v6s = net.IP(unhex(in, "v6")).String()
 		}
+		if t := str(in, "v6text"); t != "" {
+			v6s = t // the same address in another legal text form (RFC 4291: embedded dotted quad, upper case, full groups)
+		}
 		t := ngapConvert.IPAddressToNgap(v4s, v6s)
 		out := map[string]interface{}{"bytes": hx(t.Value.Bytes), "bitlen": t.Value.BitLength}
 		retain(out, "ipaddr", t.Value.Bytes)
